@@ -1,16 +1,20 @@
 #!/bin/sh
 # MANIFEST.setup_cmd: offline build of the Lean library, the model drivers and a warm Go build cache.
-set -e
-cd /verif/go
+# Every check rebuilds what it needs itself (incrementally), so a failure here is not fatal: keep going.
+cd /verif/go || exit 1
 cp /repo/go.sum go.sum
 GOFLAGS=-mod=mod GOPROXY=off go run ./cmd/factgen /repo /verif/lean/Generated/Facts.lean
-cd /verif/lean
-lake build
-for f in Driver/C[0-9][0-9].lean; do
+cd /verif/lean || exit 1
+for f in Props/C[0-9][0-9].lean; do
   [ -f "$f" ] || continue
-  n=$(basename "$f" .lean | tr 'C' 'c')
-  lake build "drv_$n"
+  id=$(basename "$f" .lean)
+  n=$(echo "$id" | tr 'C' 'c')
+  if [ -f "Driver/$id.lean" ]; then
+    lake build "Props.$id" "drv_$n" || echo "setup: lake build Props.$id drv_$n failed (the check will report it)"
+  else
+    lake build "Props.$id" || echo "setup: lake build Props.$id failed"
+  fi
 done
 cd /verif/go
-cp /repo/go.sum go.sum
-GOFLAGS=-mod=mod GOPROXY=off go build ./... || true
+GOFLAGS=-mod=mod GOPROXY=off go build ./... 2>/dev/null || true
+exit 0
